@@ -60,6 +60,22 @@ Theorem C41_lossless_except_known : forall mtu sess stream ops,
 Proof. exact lossless_main. Qed.
 Print Assumptions C41_lossless_except_known.
 
+(** Cleanup ticks (worker.cleanup: a list not touched since the previous tick is removed)
+    do not disturb loss-free in-order delivery as long as the stream's reassembly list is
+    touched between any two consecutive ticks, i.e. there are never two ticks without a
+    frame between them: ticks may fall anywhere else, also between the frames of a packet.
+    (A list idle for two ticks is dropped with what it holds; by [C41_lossy_safe] that can
+    only lose packets.) *)
+Theorem C41_lossless_with_ticks : forall mtu sess stream ops (rops : list rop),
+  57 <= mtu -> (N.of_nat mtu <= 65535)%N ->
+  (N.of_nat (length (frames_sched mtu sess stream ops)) <= two64)%N ->
+  forallb (fits_rlist mtu) (filter valid_pkt (written ops)) = true ->
+  rframes rops = frames_sched mtu sess stream ops ->
+  no_adjacent_ticks rops false = true ->
+  ingest_ops rops = filter valid_pkt (written ops).
+Proof. exact lossless_ticks_main. Qed.
+Print Assumptions C41_lossless_with_ticks.
+
 Lemma written_writes ps : written (map EWrite ps) = ps.
 Proof. unfold written. induction ps as [|p ps IH]; cbn; [reflexivity|now f_equal]. Qed.
 
@@ -121,5 +137,8 @@ Example C41_example :
   length fs = 5 /\ ingest fs = [p1; p2] /\
   ingest (nth 0 fs [] :: skipn 2 fs) = [p2] /\
   ingest (rev fs ++ fs ++ rev fs) = [p2] /\
-  ingest (fs ++ fs) = [p1; p2; p1; p2].
+  ingest (fs ++ fs) = [p1; p2; p1; p2] /\
+  (* a tick before every frame changes nothing; two ticks in a row inside p1 lose p1 *)
+  ingest_ops (flat_map (fun f => [RCleanup; RFrame f]) fs) = [p1; p2] /\
+  ingest_ops (RFrame (nth 0 fs []) :: RCleanup :: RCleanup :: map RFrame (skipn 1 fs)) = [p2].
 Proof. vm_compute. repeat split. Qed.
